@@ -54,7 +54,8 @@ def setup(ctx):
 # ---------------------------------------------------------------------------
 
 def ancestors(n, edges):
-    """anc[v] = set of units from which v is reachable (v excluded unless on a cycle)."""
+    """reach[v] = set of units reachable from v (v itself only if it lies on a cycle); u is an ancestor of v iff
+    v in reach[u]."""
     succ = {i: [] for i in range(n)}
     for a, b in edges:
         succ[a].append(b)
@@ -227,6 +228,7 @@ def prop_order(ch, ctx):
     size = 'n<=4' if n <= 4 else 'n>4'
     region = f'{shape},{size}'
     perms = permutations_for(ch, ctx, n)
+    reach_all = ancestors(n, all_edges)      # reach_all[v] = units reachable from v (own search)
     for perm in perms:
         units = [U[i] for i in perm]
         with warnings.catch_warnings(record=True) as wlist:
@@ -263,11 +265,10 @@ def prop_order(ch, ctx):
             rest = [list(fs['streams'][k]) for k in range(len(all_edges)) if id(S[k]) not in rec_ids]
             ctx.cell('cyclic:recycles-tear-all-loops' if not has_cycle(n, rest) else 'cyclic:recycles-leave-a-loop')
             loops = recycle_networks(net)
-            reach = ancestors(n, all_edges)
             for a, b in all_edges:
                 if first[a] >= first[b]:
                     ctx.cell('backward-streams')
-                    if a not in reach[b]:       # the two units share no loop of the flowsheet at all
+                    if a not in reach_all[b]:       # the two units share no loop of the flowsheet at all
                         ctx.fail(f'order|{region}|backward-not-on-cycle',
                                  f'stream {a}->{b} runs against the path although {b} does not lead back to {a}; {where}')
                     if not any(id(U[a]) in L and id(U[b]) in L for L in loops):
